@@ -361,6 +361,42 @@ func cmdAttacks(args []string) int {
 					probe(w)
 					finish(w)
 				}
+				// within one session: the recorded key-exchange messages of the peer arrive again, each
+				// once, twice and three times in a row (a DH-Commit opens an exchange that nobody continues);
+				// the running session must not be touched and traffic goes on in both directions
+				for _, init := range []string{"A", "B"} {
+					for _, times := range []int{1, 2, 3} {
+						w := freshWorld(sd, of, version, "none")
+						w.Handshake(init)
+						w.Send(w.P["A"], 1)
+						w.Send(w.P["B"], 2)
+						drain(w, 10)
+						recorded := append([]*world.WireMsg{}, w.Wire...)
+						for _, m := range recorded {
+							t := fmt.Sprint(m.Abs["t"])
+							if t != "DHC" && t != "DHK" && t != "RS" && t != "SIG" {
+								continue
+							}
+							for k := 0; k < times; k++ {
+								w.ReceiveAttack(w.P[m.To], m.Raw, fmt.Sprintf("again%d/%s", times, t))
+							}
+							w.Send(w.P["A"], 10+len(w.Wire))
+							w.Send(w.P["B"], 11+len(w.Wire))
+							// the victim's replies to the stale messages go nowhere; only the texts are delivered
+							for _, p := range []string{"A", "B"} {
+								q := w.P[p].Queue[:0]
+								for _, x := range w.P[p].Queue {
+									if x.Abs["t"] == "D" {
+										q = append(q, x)
+									}
+								}
+								w.P[p].Queue = q
+							}
+							drain(w, 10)
+						}
+						finish(w)
+					}
+				}
 				// reflection of A's own messages
 				w := freshWorld(sd, of, version, "none")
 				w.ReceiveAttack(w.P["A"], [][]byte{[]byte("?OTRv23?")}, "reflect/query")
